@@ -61,4 +61,20 @@ def jobs():
                                   desc="Block2 download of %d blocks, responses delivered in order %s (%s, %s Size2, %s responses): exact body/blocks, once, own token" %
                                        (nblk, sq, "single body" if single else "per block", "with" if size2 else "without", rtype.upper()),
                                   bounds={"blocks": nblk, "order": sq, "single_body": single, "size2": size2, "type": rtype}))
+    for nblk, sq, errat, tier in ((2, "01", 1, "quick"), (3, "012", 2, "quick"), (3, "012", 1, "thorough"), (2, "01", 0, "thorough")):
+        for single in (1, 0):
+            js.append(Job("B2-get-error@n%d-seq%s-err%d-%s" % (nblk, sq, errat, "single" if single else "perblock"), "C09/c09c.c", "c09_b2_get", NU, extra_src=NE,
+                          defines=["NBLK=%d" % nblk, "SEQLEN=%d" % len(sq), "SEQ={%s}" % ",".join(sq), "SIZE2=1", "SINGLE=%d" % single, "COMPLETE=0", "RTYPE=2", "ERR_AT=%d" % errat] + cut2,
+                          remove_bodies=rb2, unwind=50, flags=FS, group="B2-get-error", timeout=600, est_gb=4, tier=tier,
+                          desc="Block2 download of %d blocks where delivery #%d is a 4.04 to the request it answers (%s): error handed over once, own token, state released" %
+                               (nblk, errat, "single body" if single else "per block"),
+                          bounds={"blocks": nblk, "order": sq, "error_at": errat, "single_body": single}))
+    # B3: client Block1 upload: coap_add_data_large_request_lkd + coap_send_lkd + dispatch of the 2.31/2.04 answers
+    for ln, mx, peer, tier in ((40, 100, -1, "quick"), (40, 86, -1, "quick"), (33, 100, -1, "quick"), (40, 100, 0, "quick"), (16, 100, -1, "quick")):
+        js.append(Job("B3-send@len%d-max%d%s" % (ln, mx, "-peer%d" % peer if peer >= 0 else ""), "C09/c09d.c", "c09_b3_send", NU, extra_src=NE,
+                      defines=["LEN=%d" % ln, "MAXSIZE=%d" % mx, "PEERSZX=%d" % peer] + [c for c in cut2 if c != "UNREACH_HANDLE_RESPONSE"],
+                      remove_bodies=[r for r in rb2 if not r.endswith("handle_response")], unwind=50, flags=FS, group="B3-send", timeout=900, est_gb=4, tier=tier,
+                      desc="Block1 upload of a %d-byte body, PDU maximum %d%s: blocks tile the body, fit the maximum, final response once with own token, release once" %
+                           (ln, mx, ", peer asks for SZX %d" % peer if peer >= 0 else ""),
+                      bounds={"body": ln, "max_size": mx, "peer_szx": peer}))
     return js
